@@ -101,6 +101,23 @@ theorem cstr_nulfree (s : Bytes) (h : (0 : UInt8) ∉ s) : cstr s = s := by
     simp [ha, this]
 
 
+theorem noNulIn_ok : ∀ (avail : Bytes) (n : Nat), n ≤ avail.length →
+    noNulIn avail n = .val (decide ((0 : UInt8) ∉ avail.take n)) := by
+  intro avail n
+  induction n generalizing avail with
+  | zero => intro _; cases avail <;> simp [noNulIn]
+  | succ n ih =>
+    intro h
+    cases avail with
+    | nil => simp at h
+    | cons b rest =>
+      simp only [noNulIn, List.take_succ_cons]
+      by_cases hb : b = 0
+      · subst hb; simp
+      · rw [ih rest (by simpa using h)]
+        have : (0 : UInt8) ≠ b := fun h => hb h.symm
+        simp [hb, this]
+
 theorem getLast_readAt (dir tl : Bytes) (hne : dir ≠ []) :
     readAt (dir ++ 0 :: tl) (dir.length - 1) = .val (dir.getLast hne) := by
   have hpos : 0 < dir.length := List.length_pos_iff.mpr hne
@@ -134,6 +151,10 @@ theorem resolvePath_eq_spec (pm : Nat) (dir tl avail : Bytes) (len : Nat) (buf :
       | cons a t => cases len with
         | zero => exact absurd rfl h0
         | succ k => simp
+    simp only [Gen.WasiPath.rejectsNul, if_true, noNulIn_ok avail len hlen, Out.bind_val]
+    by_cases hnul : (0 : UInt8) ∈ avail.take len
+    · simp [h0, hnul]
+    simp only [hnul, not_false_eq_true, decide_true, not_true_eq_false, if_false]
     rw [readAt_lt avail 0 hpos]
     simp only [Out.bind_val, hhead, h0, gt_iff_lt, Nat.pos_of_ne_zero h0, decide_true, not_true_eq_false,
       if_false, Bool.not_eq_true, decide_eq_false_iff_not, Nat.not_lt, Option.some.injEq]
